@@ -141,7 +141,7 @@ func C09(c *core.Ctx) {
 	c.Explanation("C09: for every sequence of a bounded family (all length-4 sequences over {A,C,G,T,N} against the reference TGCA, in batches of several records) the interpreted pipeline getLines -> updown.writeOutput (the CSV text it writes, split on commas) -> readCSVToUDLList / readCSVToUDLChan must reproduce the record getLines produced, on every field that the ranking code reads (the set of fields read is computed from the SSA of pkg/updown's consumers), including the query's input index; this decides the writer/reader schema agreement (header, column positions, '|' and '-' separators, a / a-b ranges, SNP position parsing) and the producer/consumer field agreement. The CSV header check and the empty-file check of both readers; FASTA paths: target conversion re-ordered by input index, query conversion not a pool, results stored by query index.")
 	checkSoftGapReaders(c, "R6", "pkg/updown")
 	if tabs := extractTables(c, newEval(c), "R0w"); tabs.OK {
-		checkWorkersStateless(c, "R7", tabs)
+		checkWorkersStateless(c, "R7", tabs, "pkg/updown")
 	}
 	checkArrivalOrderIndependence(c, "R5/reorder", "updown.reorderRecords")
 	c09Inputs(c)
